@@ -10,7 +10,7 @@ for m in m1 m2 m3; do
   [ -f $IN/$m/patch.diff ] || continue
   cd $WT && git checkout -q -- . && git apply $IN/$m/patch.diff 2>/dev/null || { echo "$P $m APPLY-FAILED"; continue; }
   T=$(PYTHONPATH=$WT /venv/bin/python -m pytest -q -p no:cacheprovider biom/tests 2>&1 | tail -1)
-  sed "s|/tmp/wt2/$P|$WT|g" $IN/$m/demo.py > /tmp/cw/demo_$P.py
+  sed "s|/tmp/wt[23]/$P|$WT|g" $IN/$m/demo.py > /tmp/cw/demo_$P.py
   (cd $WT && PYTHONPATH=$WT timeout 300 /venv/bin/python /tmp/cw/demo_$P.py >/dev/null 2>&1); W=$?
   cd $WT && git checkout -q -- .
   (cd $WT && PYTHONPATH=$WT timeout 300 /venv/bin/python /tmp/cw/demo_$P.py >/dev/null 2>&1); WO=$?
@@ -20,7 +20,7 @@ for m in m1 m2 m3; do
     /venv/bin/python - <<PY
 import json
 notes=open('$IN/$m/notes.md').read() if __import__('os').path.exists('$IN/$m/notes.md') else ''
-json.dump({'id':'$P-$PRE$m','property':'$P','wave':2,'base':'/repo HEAD with the fix: commits',
+json.dump({'id':'$P-$PRE$m','property':'$P','wave':int("$PRE"[1:2]),'base':'/repo HEAD with the fix: commits',
  'origin':'independent sub-agent given only the property text and its own scratch worktree of /repo (nothing from /verif)',
  'needs_to_manifest':notes[:1500],
  'confirmed_by_me':{'how':'tools/confirm_wave.sh in a fresh scratch worktree: git apply; full pytest; demo with change; git checkout; demo without','result':'tests=[$T] demo_with=$W demo_without=$WO'}},
